@@ -61,6 +61,10 @@ func (p *Prog) verifyFunction(fn *ssa.Function, con *Contract) (res *FnResult) {
 	for _, o := range res.Obls {
 		o.Query = res.Header + o.Query
 		o.HeapSorts = S.heapSort
+		for _, ch := range o.Children {
+			ch.Query = res.Header + ch.Query
+			ch.HeapSorts = S.heapSort
+		}
 	}
 	return
 }
@@ -175,6 +179,20 @@ func (e *Enc) encodeTop() {
 				v.T = e.S.zero(l.T)
 			}
 			e.store(heap, l, v.T)
+		}
+		for _, gs := range e.con.AtEntry {
+			lv, perr := parseSpecExpr(gs.Var)
+			if perr != nil {
+				e.unsupp("at entry: " + perr.Error())
+				continue
+			}
+			sv, err := env.evalLoc(lv)
+			v, _, err2 := env.eval(gs.C.Expr)
+			if err != nil || err2 != nil || sv.loc == nil {
+				e.unsupp(fmt.Sprintf("at entry set %s: %v %v", gs.Var, err, err2))
+				continue
+			}
+			e.store(heap, sv.loc, v.T)
 		}
 		for i, c := range e.con.Requires {
 			t, err := env.evalBool(c.Expr)
